@@ -431,6 +431,13 @@ func (nc *Coordinator) checkAndSendResponseToModules(response *protocol.Consumer
 		// New incident - assign an ID and start time
 		cgroup.ID = uuid.NewRandom().String()
 		cgroup.Start = time.Now()
+
+		// send-once and send-interval are counted within an incident. Forget when the modules were last notified (a
+		// previous incident that sent no close notification, or a notification for an OK status, leaves a time behind),
+		// otherwise this incident might never be announced
+		for moduleName := range cgroup.LastNotify {
+			delete(cgroup.LastNotify, moduleName)
+		}
 	}
 
 	for _, genericModule := range nc.modules {
